@@ -18,6 +18,7 @@ type sliceProg struct {
 	lines []string
 	pred  bool
 	msg   string
+	unreadable bool
 }
 
 func (p *sliceProg) snapshot() (string, string) {
@@ -45,7 +46,18 @@ func (p *sliceProg) step(coq string, readable string, f func() string) {
 	if panicked {
 		oc = "Pan"
 	}
-	snap, txt := p.snapshot()
+	var snap, txt string
+	if p.unreadable {
+		snap, txt = "[]", "(lists unreadable since an earlier step)"
+	} else if try(func() { snap, txt = p.snapshot() }) {
+		// the public API itself panics while the lists are read back (e.g. a nil slot became visible)
+		if p.pred {
+			p.pred = false
+			p.msg = fmt.Sprintf("after %s the lists can no longer be read through Count/Get/String (panic while observing)", readable)
+		}
+		p.unreadable = true
+		snap, txt = "[]", "(panic while reading the lists)"
+	}
 	p.ops = append(p.ops, coq)
 	p.trace = append(p.trace, fmt.Sprintf("(%s, %s)", oc, snap))
 	p.lines = append(p.lines, fmt.Sprintf("%s => %s | %s", readable, oc, txt))
